@@ -75,6 +75,7 @@ func extraWorkloads(r *mon.Run, rec *recorder) {
 	hugeSends(r, rec)
 	otherPacketTypes(r, rec)
 	reconnects(r, rec)
+	reconnectSamePeer(r, rec)
 	factoryTransports(r, rec)
 	slicesOfLargerBuffers(r, rec)
 	lastBytesWithEOF(r, rec)
@@ -772,5 +773,81 @@ func concurrentSends(r *mon.Run, rec *recorder) {
 				map[string]any{"goroutines": G, "sends_each": per})
 		}
 		rec.Nontrivial(sprintf("csend|%d|%d|%d", G, per, run))
+	}
+}
+
+// reconnectSamePeer: one transport object receives a packet it refuses (a retarget / negative session
+// response whose trailer reads as a session message header) and is then connected again to the SAME
+// endpoint, with and without a Close in between: what it receives next is what the peer sent on the new
+// connection, never octets left over from the refused packet (seeded C11-r10-1).
+func reconnectSamePeer(r *mon.Run, rec *recorder) {
+	for run := 0; run < r.Pick(12, 60); run++ {
+		fresh := sprintf("fresh-%d", run)
+		ff, _ := refEncode([]byte(fresh))
+		var first []byte
+		switch run % 3 {
+		case 0: // RETARGET SESSION RESPONSE, 6 octets: 00 00 00 02 'A' 'B'
+			first = []byte{0x84, 0, 0, 6, 0, 0, 0, 2, 'A', 'B'}
+		case 1: // NEGATIVE SESSION RESPONSE with an over-long trailer
+			first = []byte{0x83, 0, 0, 7, 0x8F, 0, 0, 0, 2, 'C', 'D'}
+		default: // an undefined packet type
+			first = []byte{0x7E, 0, 0, 6, 0, 0, 0, 2, 'E', 'F'}
+		}
+		ln, err := net.Listen("tcp4", "127.0.0.1:0")
+		if err != nil {
+			rec.Count("reconnect_scenarios_skipped", 1)
+			continue
+		}
+		go func() {
+			for i := 0; i < 2; i++ {
+				c, err := ln.Accept()
+				if err != nil {
+					return
+				}
+				out := first
+				if i == 1 {
+					out = ff
+				}
+				go func(c net.Conn, out []byte) {
+					c.Write(out)
+					buf := make([]byte, 16)
+					c.SetReadDeadline(time.Now().Add(3 * time.Second))
+					c.Read(buf)
+					c.Close()
+				}(c, out)
+			}
+		}()
+		port := ln.Addr().(*net.TCPAddr).Port
+		withClose := run%2 == 1
+		t := nbt.NewNBTTransport()
+		var m1, m2 []byte
+		var e1, e2, ec error
+		pan, pv, st := mon.Guard(func() {
+			if ec = t.Connect(net.IP{127, 0, 0, 1}, port); ec != nil {
+				return
+			}
+			m1, e1 = t.Receive()
+			time.Sleep(20 * time.Millisecond)
+			if withClose {
+				t.Close()
+			}
+			if ec = t.Connect(net.IP{127, 0, 0, 1}, port); ec != nil {
+				return
+			}
+			m2, e2 = t.Receive()
+			t.Close()
+		})
+		ln.Close()
+		rec.Eval(1)
+		cs := map[string]any{"run": run, "first_connection_stream": mon.FullHex(first), "close_before_second_connect": withClose, "first_receive_len": len(m1), "first_receive_err": sprintf("%v", e1)}
+		switch {
+		case pan:
+			rec.Violation(run, "Receive:reconnect-same-peer:panic", sprintf("panic %v at %s", pv, mon.TopLibFrame(st)), cs)
+		case ec != nil || e2 != nil:
+			rec.Count("reconnect_scenarios_io_error", 1)
+		case string(m2) != fresh:
+			rec.Violation(run, "Receive:reconnect-same-peer:stale-bytes", sprintf("after a refused packet and Connect to the same endpoint the message received is %q (nil error); the peer sent %q on the new connection", m2, fresh), cs)
+		}
+		rec.Nontrivial(sprintf("reconnect-same|%d", run))
 	}
 }
